@@ -6,6 +6,7 @@ import (
 	"io"
 	"net"
 	"strings"
+	"sync/atomic"
 	"time"
 
 	plugin "github.com/hashicorp/go-plugin"
@@ -143,9 +144,19 @@ func init() {
 				return
 			}
 			x.Release()
+			{ // closing is idempotent for the harness (a history may close, the check closes again)
+				var started atomic.Bool // (not sync.Once: a second caller must not wait on a real mutex inside the bubble)
+				cl := ops.close
+				ops.close = func() {
+					if started.CompareAndSwap(false, true) {
+						cl()
+					}
+				}
+			}
 			x.Put("ops", ops)
 			d := newDone(x)
 			x.Put("d", d)
+			closed := false
 			dom := func(s byte) string {
 				if s == 'h' {
 					return "host"
@@ -163,6 +174,9 @@ func init() {
 					op = func(byte, uint32) error { return ops.raw(side, nb) }
 				}
 				blocking := !(ev[0] == 'A' && ops.kind != "mux") // gRPC AcceptAndServe serves until close
+				if closed {
+					blocking = true // ... and a call issued after or while the connection is closed must return by itself
+				}
 				run := func() {
 					t0 := x.Now()
 					err := op(side, id)
@@ -194,11 +208,25 @@ func init() {
 					x.Pause(ms(ev[1:]))
 					continue
 				}
+				if ev[0] == 'Z' { // the client closes the connection: "Z" racing with what follows, "Zw" completed before it
+					closed = true
+					if ev == "Zw" {
+						fin := make(chan struct{})
+						x.Go("host", func() { defer close(fin); ops.close() })
+						<-fin
+					} else {
+						x.Go("host", ops.close)
+					}
+					continue
+				}
 				n++
 				issue(fmt.Sprintf("e%d:%s", n, ev), ev, false)
 			}
 			// let the history play out, then the fresh matched pair
 			x.Pause(12 * time.Second)
+			if closed {
+				return // nothing can be matched any more; every call of the history must have returned (checked below)
+			}
 			// two fresh ids at once: an accept nobody dials (it must time out, with nothing delivered to it) ...
 			if ops.kind == "mux" {
 				issue("fresh:Ap91", "Ap91", false)
@@ -214,6 +242,15 @@ func init() {
 				if len(x.Violations()) == 0 {
 					x.Fail("L", "setup never finished: %v", x.EndBlocked)
 				}
+				return
+			}
+			if strings.Contains(p["hist"], "Z") && x.TimeDevs > 0 {
+				// a close racing with other calls, in an execution where a goroutine was held back for 5 virtual seconds at
+				// a select: go-plugin's own give-up timers (GRPCServerMuxer.session() inside Close) then legitimately win
+				// and the shutdown is abandoned half-way, so nothing that waits for it ends; like every liveness verdict
+				// these need an execution without a timer deviation (DESIGN 2.6)
+				x.GoFree(ops.close)
+				x.Quiesce(12 * time.Second)
 				return
 			}
 			for _, n := range d.names {
@@ -281,6 +318,20 @@ func init() {
 								out = append(out, explore.Params{"kind": kind, "hist": a + ",+5000," + b + "," + c})
 							}
 						}
+					}
+				}
+			}
+			// accepts and dials issued after, or racing with, the close of the connection: each returns by itself
+			for _, kind := range []string{"mux", "grpc", "grpcmux"} {
+				for _, z := range []string{"Z", "Zw"} {
+					for _, a := range evs {
+						out = append(out, explore.Params{"kind": kind, "hist": z + "," + a})
+						if kind != "grpcmux" {
+							out = append(out, explore.Params{"kind": kind, "hist": z + "," + a + "," + a}, explore.Params{"kind": kind, "hist": "Ap7," + z + "," + a})
+						}
+					}
+					if kind != "grpcmux" {
+						out = append(out, explore.Params{"kind": kind, "hist": z + ",Ah7,Ap7,Dh8,Dp8"}, explore.Params{"kind": kind, "hist": z + ",Ah7,Ah8,Ah9,Ap7,Ap8,Ap9"})
 					}
 				}
 			}
